@@ -28,6 +28,7 @@ TRUSTED_BASE = [
     "modelled rather than verified: coroutine.nelua and the C functions of minicoro are mirrored by hand in coq/C18/Model.v; the context switch itself (assembly) and the intactness of suspended frames are outside the model and observed only through per-frame canaries",
 ]
 THEOREM_CLASSES = {
+    "C18_refines_spec": "main", "C18_refines_spec_history": "corollary", "C18_status_agrees_with_spec": "corollary",
     "C18_one_running": "main", "C18_main_running_iff": "corollary", "C18_normal_is_prev_chain": "main",
     "C18_idle_has_no_prev": "main", "C18_storage_within_capacity": "main", "C18_state_machine": "main",
     "C18_resume_transition": "main", "C18_yield_transition": "main", "C18_return_transition": "main",
@@ -42,7 +43,7 @@ THEOREM_CLASSES = {
 UNPROVED = [
     "the context switch itself (_mco_switch, assembly) and 'local variables of every suspended frame are intact when it continues': no model; observed only through per-frame canaries (level frames, typed body arguments, the workers of `sub`) on every run",
     "model = code: established by differential correspondence on generated schedules only (NSLOTS = 24, resume chains <= 24, frame depth <= 8 on the tested side; the theorems have no such bounds)",
-    "no Coq reference semantics with a refinement theorem: 'the state the documentation prescribes' is proved as invariants + the per-operation transition theorems (C18_resume/yield/return_transition, C18_quiet_commands, C18_destroy_behaviour); the call-stack reference semantics exists in Python only (oracle.py) and is compared by testing",
+    "the reference semantics Spec.v (stack of active resumes, suspended/dead flag, LIFO byte storage; written from the documentation) is refined by the model for EVERY command incl. printed lines (C18_refines_spec); what the refinement does not give: Spec.v's storage is the byte list (typed values are byte lists with their sizes, no value-level typing), its multi-value pop and the panics of the typed wrapper are by definition what the code does (documented), `sub`/`gc` are transcript-only in both, and the older invariant/transition theorems are proved directly on the model, not re-derived from the spec",
     "no open finding: the two repaired defects (destroy order 1075c3a, refused resume with arguments 6a782fc) are modelled as repaired, under scraped flags with fact lemmas (C18_gen_facts), so a revert breaks proofs and their witness schedules (replayed on every run in every build) fail the strict reference; the single exclusion left in C18_error_unchanged is the documented multi-value coroutine.pop (next item)",
     "documented limit, not a finding: a coroutine.pop of several values that fails midway keeps what it popped ('the values may not be set', 'the user is responsible to always use the right types and push/pop order and count'): C18_pop_effect states it exactly; corpus/C18/multipop_partial.txt replays it",
     "GC lifecycle: only the registration flag is modelled (C18_registered_while_alive is a trip-wire for the repaired destroy order, it proves nothing about gc.nelua); `forget k` drops the only handle of a suspended/dead coroutine and collects (finalizer path coroutine_gc -> destroy -> gc:unregister): the model just removes the object; whether/when the collector finalizes it (conservative retention) is not modelled, the harness accepts 'gc.items shrinks by at most the number of forgotten coroutines, or stays' and no abort; `gc` and `sub` are identities on the model state (sub_lines is the expected transcript, not a model)",
@@ -53,8 +54,8 @@ UNPROVED = [
     "the ASan build skips schedules that destroy/close/forget a coroutine suspended inside its body (stale shadow poison after munmap gives false positives); --release and ASan only in the thorough tier",
 ]
 MANIFEST_ENTRY = {
-    "text": "proof, partial: theorems over all command histories of an executable model of coroutine.nelua + minicoro: exactly one Running coroutine = current, Normal = the acyclic prev chain down to main, Suspended/Dead have no resumer; the documented transition of every operation (resume, yield, body return, destroy, quiet commands, failed calls) and Dead absorbing; LIFO byte storage within capacity with zeroed tail, storage frame (a command changes only the storage it addresses), typed push/pop round trip, all-or-nothing push, exact effect of a failing multi-value pop; values and typed body arguments/returns cross resume/yield unmodified; every failed call of the library returns the documented error and leaves the whole state unchanged, with the single documented exclusion of a multi-value coroutine.pop failing midway (C18_error_unchanged, C18_pop_effect); resting on differential testing only: that the model is the code (schedule-by-schedule correspondence of the extracted model and of an independent reference against the real library, gc/nogc/release/ASan builds), the context switch and intactness of suspended frames (canaries), the GC lifecycle of coroutines (finalizer path, stack scanning after failed transitions)",
-    "note": "trusted: Coq kernel, regex scrapes into Gen.v, ExtrOcamlBasic extraction, coq/C18/codriver.ml + glue.ml, harness/C18/codriver.nelua, harness/C18/oracle.py, gcc; assumes zero-initialised coroutine memory, little-endian value layout, no stack overflow; lib/allocators/gc.nelua itself is property C10's model (here only the registration flag)",
+    "text": "proof, partial: theorems over all command histories of an executable model of coroutine.nelua + minicoro: the model REFINES a reference semantics written from the documentation (Spec.v: stack of active resumes, per-coroutine suspended/dead flag and LIFO storage) for every command, same abstract state and same printed results (C18_refines_spec); moreover exactly one Running coroutine = current, Normal = the acyclic prev chain down to main, Suspended/Dead have no resumer; the documented transition of every operation (resume, yield, body return, destroy, quiet commands, failed calls) and Dead absorbing; LIFO byte storage within capacity with zeroed tail, storage frame (a command changes only the storage it addresses), typed push/pop round trip, all-or-nothing push, exact effect of a failing multi-value pop; values and typed body arguments/returns cross resume/yield unmodified; every failed call of the library returns the documented error and leaves the whole state unchanged, with the single documented exclusion of a multi-value coroutine.pop failing midway (C18_error_unchanged, C18_pop_effect); resting on differential testing only: that the model is the code (schedule-by-schedule correspondence of the extracted model and of an independent reference against the real library, gc/nogc/release/ASan builds), the context switch and intactness of suspended frames (canaries), the GC lifecycle of coroutines (finalizer path, stack scanning after failed transitions)",
+    "note": "trusted: Coq kernel, regex scrapes into Gen.v, ExtrOcamlBasic extraction, coq/C18/codriver.ml + glue.ml, harness/C18/codriver.nelua, harness/C18/oracle.py, gcc; Spec.v itself (hand-written reading of the documentation, also extracted and run); assumes zero-initialised coroutine memory, little-endian value layout, no stack overflow; lib/allocators/gc.nelua itself is property C10's model (here only the registration flag)",
     "technique": "machine-checked proof in Coq over an executable model + regenerated parameters + extracted-model/implementation correspondence on generated schedules with an independent reference oracle",
 }
 ASSUMPTIONS = [
@@ -578,13 +579,14 @@ def run_impl(binary, script, timeout=60):
     return rc, lines
 
 
-def run_model(model, items, gc):
-    """items: list of scripts; -> list of line lists (one model process for all)"""
+def run_model(model, items, gc, spec=False):
+    """items: list of scripts; -> list of line lists (one model process for all).
+    spec=True runs the extracted reference semantics (coq/C18/Spec.v, spec_step) instead of the model."""
     inp = []
     for script in items:
         inp.append("reset %d %d" % (1 if gc else 0, NSLOTS))
         inp += script
-    rc, out, err = vlib.sh([model], input="\n".join(inp) + "\n", timeout=3000)
+    rc, out, err = vlib.sh([model] + (["spec"] if spec else []), input="\n".join(inp) + "\n", timeout=3000)
     if rc != 0:
         raise RuntimeError("model driver failed: %s" % err[-800:])
     res = []
@@ -756,6 +758,7 @@ def correspond(ctx):
     evaluations = 0
     nontrivial = set()
     n_oracle = n_mismatch = 0
+    n_spec = n_specdiff = 0
     n_runs = 0
     samples = []
     err_hist = {}
@@ -778,12 +781,17 @@ def correspond(ctx):
                 with concurrent.futures.ThreadPoolExecutor(max_workers=4) as ex:
                     impl = list(ex.map(one, part))
                 mod = run_model(model, [sc for _, sc in part], gcmode)
-                for x in zip(part, impl, mod):
+                spc = run_model(model, [sc for _, sc in part], gcmode, spec=True)
+                for x in zip(part, impl, mod, spc):
                     yield x
         n_runs += len(items)
-        for (name, sc), (rc, ilines), mlines in batches():
+        for (name, sc), (rc, ilines), mlines, slines in batches():
             exp = norm_expected(ORACLE.run(sc, gcmode, NSLOTS))
             mlines = norm_expected(mlines)
+            # the extracted reference semantics of Spec.v: proved equal to the model's transcript (C18_refines_spec_history);
+            # compared here as well, so that oracle.py is not the only executable reference
+            n_spec += 1
+            ds = first_diff(mlines, norm_expected(slines))
             ncmd = sum(1 for l in ilines if l.startswith("> "))
             evaluations += ncmd
             chain = 0
@@ -824,6 +832,11 @@ def correspond(ctx):
                                           "schedule_file": path,
                                           "replay": "nelua %s -b harness/C18/codriver.nelua -o cod && ./cod < %s" % (" ".join(extra), path)})
                 continue
+            if ds is not None and n_specdiff < 2:
+                n_specdiff += 1
+                ctx.violation("spec-transcript:%s" % name.split("-")[0].split("/")[0], "correspondence",
+                              "%s build, schedule %s: the extracted Spec.v prints '%s' where the extracted model prints '%s' (the implementation agrees with oracle.py on this schedule); C18_refines_spec_history proves the two transcripts equal: either that proof no longer checks (the scraped flags changed the model) or extraction / driver glue is wrong" %
+                              (tag, name, ds[2][:160], ds[1][:160]), detail={"schedule": sc}, failing_input=False)
             d = first_diff(ilines, mlines)
             if d is not None:
                 n_mismatch += 1
@@ -866,6 +879,7 @@ def correspond(ctx):
         "distribution": {"schedules": {("gc" if g else "nogc"): len(v) for g, v in sets.items()}, "builds": [b[0] for b in builds],
                          **dist, "error_results": err_hist},
         "forgotten_coroutines_collected_at_once": FORGET_STATS.get("collected", 0),
+        "spec_transcripts_compared": n_spec,
         "oracle_failures": n_oracle,
         "model_mismatches": n_mismatch,
         "traces_validated_against_impl": n_runs,
